@@ -10,6 +10,7 @@
    [is_legacy v = false] covers Fixed and Ideal. *)
 From Coq Require Import NArith List Bool.
 From RV Require Import Manager.ReloadModel Manager.ReloadProofs.
+From RV Require Rib.RibModel E2e.E2eModel E2e.E2eProofs.
 Import ListNotations.
 Local Open Scope N_scope.
 
@@ -129,6 +130,50 @@ Theorem C13_consumer_need_not_run :
     all_links (expand wit_chain_unused) = [u 3; u 1].
 Proof. exact consumer_need_not_run. Qed.
 Print Assumptions C13_consumer_need_not_run.
+
+(* ---- the Roto script of the configuration (E2e/E2eModel.v; tied to the code by the `e2e` engine) ----
+   [e_run false (e_init s0) h] = the running pipeline after start-up with the script s0 and the history h of traffic,
+   edits of the script / of [units.rib2] and reloads; [scripts_named s0 h] = the script the configuration named at
+   each reload of h; a unit records the number of the load that started it (0 = start-up). *)
+
+(* every RIB unit filters with the script named by the configuration that was loaded when the unit was started -
+   the start-up configuration for a unit that runs since then, the reloaded one for a unit a reload started *)
+Theorem C13_unit_filter_is_script_of_its_load : forall s0 h,
+  let st := E2eModel.e_run false (E2eModel.e_init s0) h in
+  let named := s0 :: E2eModel.scripts_named s0 h in
+  nth_error named (E2eModel.ru_born (E2eModel.es_rib st)) = Some (E2eModel.ru_filter (E2eModel.es_rib st)) /\
+  forall r, E2eModel.es_rib2 st = Some r -> nth_error named (E2eModel.ru_born r) = Some (E2eModel.ru_filter r).
+Proof. exact E2eProofs.unit_filter_is_script_of_its_load_nth. Qed.
+Print Assumptions C13_unit_filter_is_script_of_its_load.
+
+(* a reload that adds the unit (or changes the type of the unit of that name to rib) starts it empty and with the
+   script the reloaded configuration names *)
+Theorem C13_reload_starts_unit_with_new_script : forall st,
+  (E2eModel.es_rib2kind st =? 1) = false -> E2eModel.ef_rib2 (E2eModel.es_file st) = 1 ->
+  E2eModel.es_rib2 (E2eModel.e_step false st E2eModel.EReload) =
+  Some (E2eModel.MkRunit (E2eModel.ef_script (E2eModel.es_file st)) (length (E2eModel.es_scripts st)) RibModel.rib_empty).
+Proof. exact E2eProofs.reload_starts_unit_with_new_script. Qed.
+Print Assumptions C13_reload_starts_unit_with_new_script.
+
+(* a reload spares what is unchanged: a running RIB unit of unchanged name and type keeps its store - and the filter
+   it fetched when it was started (what the code does with an edited script, see design-notes/E2E.md O6) *)
+Theorem C13_reload_spares_running_units : forall lg st,
+  E2eModel.es_rib (E2eModel.e_step lg st E2eModel.EReload) = E2eModel.es_rib st /\
+  (E2eModel.es_rib2kind st = 1 -> E2eModel.ef_rib2 (E2eModel.es_file st) = 1 ->
+   E2eModel.es_rib2 (E2eModel.e_step lg st E2eModel.EReload) = E2eModel.es_rib2 st).
+Proof. exact E2eProofs.reload_spares_running_units. Qed.
+Print Assumptions C13_reload_spares_running_units.
+
+(* the code as it was (legacy = true): a reload whose configuration names NO script left the compiled script of the
+   earlier load in the manager, and a unit started by that reload filtered with it *)
+Theorem C13_legacy_script_removed_refuted :
+  let h := [E2eModel.EScript E2eModel.SNone; E2eModel.EUnit 1; E2eModel.EReload] in
+  let st := E2eModel.e_run true (E2eModel.e_init (E2eModel.SRejectPfx 7)) h in
+  option_map E2eModel.ru_filter (E2eModel.es_rib2 st) = Some (E2eModel.SRejectPfx 7) /\
+  last (E2eModel.es_scripts st) E2eModel.SNoRibFilter = E2eModel.SNone /\
+  option_map E2eModel.ru_filter (E2eModel.es_rib2 (E2eModel.e_run false (E2eModel.e_init (E2eModel.SRejectPfx 7)) h)) = Some E2eModel.SNone.
+Proof. exact E2eProofs.legacy_script_removed_refuted_std. Qed.
+Print Assumptions C13_legacy_script_removed_refuted.
 
 (* non-vacuity: a valid pipeline with a shorthand rib (expanded to two vRIBs),
    an unused unit and three targets loads, runs what the file says, and a
